@@ -11,6 +11,8 @@ import os, sys, json, time, importlib, argparse, traceback, warnings, io, contex
 
 sys.path.insert(0, os.path.dirname(os.path.abspath(__file__)))
 import vlib
+# the implementation under test: /repo, or the tree named by PDB2SQL_REPO (scratch worktrees used for mutation trials)
+sys.path.insert(0, vlib.REPO)
 from vlib import Ctx
 
 
@@ -126,7 +128,7 @@ def run(ctx, pid, args):
             okp, logp, errsp, _ = vlib.lake_build([pt])
             if not okp:
                 pin_fail.append((pt, errsp[:3]))
-        audit = vlib.run_audit(pid) if ok_props else {'theorems': vlib.theorem_names(pid), 'axioms': {}, 'bad': [], 'forbidden': [], 'ok': False, 'log': 'Props did not build'}
+        audit = vlib.run_audit(pid, getattr(P, 'CLUSTER', 'Z')) if ok_props else {'theorems': vlib.theorem_names(pid), 'axioms': {}, 'bad': [], 'forbidden': [], 'ok': False, 'log': 'Props did not build'}
     thms = audit['theorems']
     for n in thms:
         ok_n = ok_props and n in audit['axioms'] and not any(b[0] == n for b in audit['bad'])
